@@ -101,7 +101,13 @@ def r1_restores(ctx):
             ctx.ob("R1", f, f"temporary override of {tgt} is restored", infin,
                    "restored in a finally: holds on every exit" if infin else
                    "the restoring assignment is not in a finally: if validation raises in between, the override stays")
-    # config_context: yield inside try/finally that restores from a snapshot taken before the try
+    config_context_restore(ctx, "R1")
+    ctx.stats["restore_patterns"] = n
+
+
+def config_context_restore(ctx, rule):
+    """config_context: yield inside try/finally that restores from a snapshot taken before the try"""
+    ix = ctx.ix
     m = ix.module("pandera/config.py")
     f = m.functions.get("config_context")
     if f is None:
@@ -127,8 +133,7 @@ def r1_restores(ctx):
             ok = bool(restores) and not writes_before
             detail = ("snapshot before try, overrides inside try, restore from the snapshot in finally" if ok else
                       f"restore-from-snapshot calls in finally: {len(restores)}, writes before try: {len(writes_before)}")
-    ctx.ob("R1", f, "config_context restores the outer configuration in a finally", ok, detail)
-    ctx.stats["restore_patterns"] = n
+    ctx.ob(rule, f, "config_context restores the outer configuration in a finally", ok, detail)
 
 
 def _check_loops(f):
